@@ -98,6 +98,21 @@ def concat_obligations(prefix, sets):
     return out
 
 
+def _behaviour_differs(cpp_setup, cpp_scope, scope):
+    """None if the two sketches produce the same device events for the command (setup variant vs. the variant in another scope)"""
+    from fwsim.run import run_sketch
+    a = run_sketch(cpp_setup, passes=0)
+    b = run_sketch(cpp_scope, passes=1 if scope == "main loop" else 0)
+    if not a.get("compiled") or not b.get("compiled"):
+        return {"compile_error": (a.get("errors") or b.get("errors") or "")[-200:]}
+    ev = lambda r: [e for e in r["events"] if not e.startswith(("== ", "H:")) and e != "D:5"]
+    ea, eb = ev(a), ev(b)
+    if ea == eb:
+        return None
+    k = next((i for i, (x, y) in enumerate(zip(ea, eb)) if x != y), min(len(ea), len(eb)))
+    return {"first_difference_at": k, "in_setup": ea[max(0, k - 2):k + 3], "in_scope": eb[max(0, k - 2):k + 3]}
+
+
 def scope_obligations(prefix, sets):
     """the code emitted for a command inside a helper function body, a branch or a loop is the code emitted for it in setup() (modulo
     indentation): the fragment contracts, harvested in setup()/loop(), then hold in every scope"""
@@ -105,9 +120,13 @@ def scope_obligations(prefix, sets):
     from contracts.c08 import real
     P, E = real("Reduino.transpile.parser"), real("Reduino.transpile.emitter")
     out = []
+    OBS = {"Buzzer": ["bz.get_frequency()", "bz.get_last_frequency()", "bz.get_state()"], "Led": ["d.get_state()", "d.get_brightness()"],
+           "Servo": ["d.read()", "d.read_us()"], "DCMotor": ["d.get_speed()", "d.get_applied_speed()", "d.is_inverted()", "d.get_mode()"]}
+    MON = "from Reduino.Communication import SerialMonitor\nmon = SerialMonitor(9600)\n"
     for name, (decl, sts) in sets.items():
         t0 = time.time()
         fails, n = [], 0
+        obs = "".join(f"mon.write({g})\n" for g in OBS.get(name, []))
         base = E.emit(P.parse(CONCAT_PRE + decl + "\nc = 1\n"))
         _, bs, _ = sections(base)
         for st in sts:
@@ -141,8 +160,22 @@ def scope_obligations(prefix, sets):
                 # the command's lines must appear, in order and contiguously, in the scope's body
                 joined, w = "\n".join(got), "\n".join(want)
                 if w and w not in joined:
-                    k = next((i for i, l in enumerate(want) if l not in got), 0)
-                    fails.append({"command": st, "scope": scope, "first_line_missing_or_changed": want[k] if want else None, "emitted_in_scope": got[:12]})
+                    # the text differs: it is a violation only if the behaviour differs too (same command, same prior state, on the firmware mock)
+                    # (the device's state getters are printed after the command in both variants, so that shadow state is compared too)
+                    try:
+                        ref_o = E.emit(P.parse(CONCAT_PRE + MON + decl + "\nc = 1\n" + st + "\n" + obs))
+                        ind = "    " if scope == "main loop" else ""
+                        tail = "".join(ind + l + "\n" for l in obs.splitlines())
+                        src_o = CONCAT_PRE + MON + decl + "\nc = 1\n" + tmpl.format(body=st)
+                        src_o = src_o.replace("    sleep(5)\n", tail + "    sleep(5)\n") if scope == "main loop" else src_o + tail
+                        cpp_o = E.emit(P.parse(src_o))
+                        beh = _behaviour_differs(ref_o, cpp_o, scope)
+                    except Exception as ex:
+                        beh = {"error": f"{type(ex).__name__}: {ex}"}
+                    if beh is not None:
+                        k = next((i for i, l in enumerate(want) if l not in got), 0)
+                        fails.append({"command": st, "scope": scope, "first_line_missing_or_changed": want[k] if want else None, "emitted_in_scope": got[:12],
+                                      "behaviour": beh})
             if len(fails) >= 6:
                 break
         out.append({"name": f"{prefix}/scope/{name}", "status": "discharged" if not fails else "sat", "backend": "enum",
